@@ -67,7 +67,7 @@ pub fn make_member<P: G>(kind: &'static str, pos: usize, n: usize, d: usize) -> 
     }
     let ctx = contexts()[pos % 6];
     let built = build_cached::<P>(&cfg, &wit).honest();
-    let proof = lib_prove(&built, &ctx, &mut HRng::chacha(pos as u64 + 17)).honest();
+    let proof = lib_prove_honest(&built, &ctx, &mut HRng::chacha(pos as u64 + 17));
     let mut statement = built.statement.clone();
     let mut proof_final = proof;
     let delta = Scalar::from(0x1234_5678u64);
@@ -326,6 +326,91 @@ fn refusal_cases<P: G>(tpl: Arc<Templates<P>>) -> Vec<Box<dyn Case>> {
     cases
 }
 
+/// Length triples around the chunk limit: a list that is one short (or one long) at a multiple of 256 must be refused like
+/// any other mismatch (a per-chunk check sees only complete chunks there)
+fn long_refusal_cases<P: G>(long: Arc<Templates<P>>) -> Vec<Box<dyn Case>> {
+    let mut cases: Vec<Box<dyn Case>> = Vec::new();
+    let avail = long.members.len();
+    for base in [256usize, 512] {
+        if base + 1 > avail {
+            continue;
+        }
+        for (a, b, c) in [
+            (base, base + 1, base + 1),
+            (base + 1, base, base + 1),
+            (base + 1, base + 1, base),
+            (base, base, base + 1),
+            (base, base + 1, base),
+            (base + 1, base, base),
+            (base - 1, base, base),
+            (base, base - 1, base - 1),
+        ] {
+            let long = long.clone();
+            cases.push(case(format!("{}/d={}/lengths/t={},s={},p={}", P::NAME, long.d, a, b, c), move |_v| {
+                fg::set_intern(long.intern.clone());
+                let mut res = CaseResult::new("explored");
+                let sts: Vec<RangeStatement<P>> = (0..b).map(|i| long.members[i][0].statement.clone()).collect();
+                let proofs: Vec<RangeProof<P>> = (0..c).map(|i| P::proof_clone(&long.members[i][0].proof)).collect();
+                for mode in MODES {
+                    let mut ts: Vec<Transcript> = (0..a).map(|i| long.members[i][0].ctx.transcript()).collect();
+                    let obs = verify_observed(&sts, &proofs, &mut ts, mode);
+                    res.executions += 1;
+                    res.validated += 1;
+                    *res.outcome_counter(if obs.is_ok() { "lengths-accepted" } else { "lengths-refused" }) += 1;
+                    if obs.panic.is_some() || obs.is_ok() {
+                        res.violate(mode_name(mode), format!("length triple ({},{},{}): {}", a, b, c, obs.describe()));
+                    }
+                }
+                res
+            }));
+        }
+    }
+    cases
+}
+
+/// The "only if" direction against an adaptive submitter (over F): C08's three-run procedure on otherwise valid members.
+/// The last run is a batch of two members that are each invalid alone; it must not be accepted.
+fn adaptive_cases(d: usize) -> Vec<Box<dyn Case>> {
+    use crate::props::c08;
+    let mut cases: Vec<Box<dyn Case>> = Vec::new();
+    for size in [2usize, 3] {
+        cases.push(case(format!("freemodule/d={}/adaptive-pair-of-invalid-members/size={}", d, size), move |_v| {
+            fg::clear_intern();
+            let mut res = CaseResult::new("explored");
+            let batch: Vec<c08::Member> = (0..size).map(|p| c08::plain_member(p, 1, d)).collect();
+            for mode in [VerifyAction::VerifyOnly, VerifyAction::RecoverAndVerify] {
+                for i in 0..size {
+                    for j in 0..size {
+                        if i == j {
+                            continue;
+                        }
+                        for k in 0..d {
+                            res.transitions += 1;
+                            res.executions += 3;
+                            res.validated += 1;
+                            match c08::three_run_attack(&batch, i, j, k, mode, false) {
+                                // a single shifted member accepted / nothing compared: the plain cases of this check own that
+                                Err(_) => *res.outcome_counter("adaptive-setup-failed(skipped)") += 1,
+                                Ok((accepted, _)) => {
+                                    *res.outcome_counter(if accepted { "adaptive-batch-accepted" } else { "adaptive-batch-rejected" }) += 1;
+                                    if accepted {
+                                        res.violate(
+                                            format!("{}/members=({},{})/k={}", mode_name(mode), i, j, k),
+                                            "a batch in which two members do not verify alone (responses shifted by amounts computed from two earlier runs) was accepted",
+                                        );
+                                    }
+                                },
+                            }
+                        }
+                    }
+                }
+            }
+            res
+        }));
+    }
+    cases
+}
+
 /// A member that verifies alone but disagrees with the rest of the batch on one parameter
 /// `statement_only`: the proof is an honest proof under the *batch's* parameters and only the member's statement
 /// claims the other parameters (so a verifier that silently uses the first member's parameters would accept)
@@ -523,6 +608,9 @@ fn run_group<P: G>(rep: &mut Report) {
             rep.binding.push(("C03/long-member-templates".into(), p.clone()));
         }
         rep.explore("C03", long_cases(long.clone(), &lengths, thorough && d == 1));
+        if d == 1 || thorough {
+            rep.explore("C03", long_refusal_cases(long.clone()));
+        }
         rep.explore("C03", disagreement_cases(tpl.clone(), long.clone()));
     }
 }
@@ -531,13 +619,18 @@ pub fn run(rep: &mut Report) {
     rep.rule = "history BFS over the member-kind alphabet {V (m=1), V2 (m=2,c=2), Vc (m=1,c=4), S (seeded), Vp (valid, non-zero promise), I (r1+1), J (commitment+H), \
                 Ip/Im (d1[0] +/- delta, cancel under equal weights), X2 (m=2 proof with another degree tag)} to depth 4 (thorough 5), both verifying modes; long batches \
                 L in {255,256,257,511,512,513,600,(1024,1025)} x {all valid, one invalid at each listed position, cancelling pairs, \
-                rotations}; all (|t|,|s|,|p|) in {0..3}^3; members that verify alone but disagree on bit length / degree / H / G_k / \
+                rotations}; all (|t|,|s|,|p|) in {0..3}^3 and the triples one short / one long at 256 and 512; the three-run adaptive submitter of C08 \
+                (two members invalid alone, shifts computed from earlier runs) on 2- and 3-batches; members that verify alone but disagree on bit length / degree / H / G_k / \
                 Gi,Hi at every position of a 3-batch (smaller, equal and larger than the rest) and beyond the chunk limit; \
                 oracle: Ok <=> every member verifies alone (library singleton = reference verdict), k results, i-th mask belongs to i-th triple"
         .into();
     rep.assume("members use bit length 2 (cheap); chunking, ordering and result bookkeeping do not depend on the bit length");
     run_group::<F>(rep);
     run_group::<RistrettoPoint>(rep);
+    for d in [1usize, 2] {
+        rep.explore("C03", adaptive_cases(d));
+    }
+    rep.expect_sub_outcome("adaptive-batch-rejected");
     rep.expect_sub_outcome("batch-accepted");
     rep.expect_sub_outcome("batch-rejected");
     rep.expect_sub_outcome("disagreement-refused");
